@@ -210,6 +210,7 @@ class Sched(object):
             th = threading.Thread(target=body, args=(name, f), daemon=True)
             threads.append(th)
             th.start()
+        self.threads = threads
         first = self.order[0]
         self.current = first
         self.sems[first].release()
